@@ -3,7 +3,7 @@
 From Coq Require Import List NArith ZArith Bool String.
 From BL Require Import Base.Bytes Reader.Entry Reader.SegMap Reader.EventStream Reader.Filter Render.Pretty Render.Time Render.Message Queue.QueueModel Session.SessionModel Mser.Types Mser.Encode Mser.Tag Mser.Visit.
 From BL Require Mser.Decode.
-From BL Require Render.FloatG.
+From BL Require Render.FloatG Recovery.Recover.
 Import ListNotations.
 Local Open Scope N_scope.
 
@@ -153,6 +153,7 @@ Definition api (mode : bytes) (args : list bytes) : bytes :=
   else if beq_bytes mode (str "tos") then api_tos (nth_arg args 0) (nth_arg args 1) (skipn 2 args)
   else if beq_bytes mode (str "filter") then api_filter true (nth_arg args 0) (nth_arg args 1) (skipn 2 args)
   else if beq_bytes mode (str "filter_noerase") then api_filter false (nth_arg args 0) (nth_arg args 1) (skipn 2 args)
+  else if beq_bytes mode (str "recover") then hex (Recovery.Recover.recover (nth_arg args 0))
   else if beq_bytes mode (str "visit") then api_visit (nth_arg args 0) (nth_arg args 1)
   else if beq_bytes mode (str "resume") then api_resume (nth_arg args 0) (nth_arg args 1) (skipn 2 args)
   else if beq_bytes mode (str "events") then api_events (nth_arg args 0)
